@@ -31,13 +31,13 @@ def maxVersionFrom (rows : VRows) (h : Nat) : Int :=
 def markIgnoringConflict (rows : VRows) (h : Nat) (v : Int) : VRows :=
   if rows.any (·.1 == h) then rows else rows ++ [(h, v)]
 
-/-- the legacy back-fill: −1 at every fork height the database is already past -/
+/-- the legacy back-fill: −1 at every fork height the database has reached -/
 def backfill (forks : List (Nat × Int)) (synced : Option Nat) (rows : VRows) : VRows :=
   match synced with
   | none => rows
   | some s =>
     if s > lowestSynced rows then
-      forks.foldl (fun r f => if s > f.1 then markIgnoringConflict r f.1 (-1) else r) rows
+      forks.foldl (fun r f => if s ≥ f.1 then markIgnoringConflict r f.1 (-1) else r) rows
     else rows
 
 /-- `CheckHardForks`: the rows after the back-fill and whether start-up is refused.
